@@ -821,6 +821,102 @@ enum Intent {
     DialAddr(usize),
     /// the dial owed for this peer is established
     EstOut(usize),
+    /// dial the peer by id (through the manager or through the handle)
+    DialPeer(usize),
+    /// one transport that owes an open answer for this peer reports ConnectionOpened
+    OpenedOne(usize),
+    /// the dial owed for this peer is established; `true`: accept() of the transport returns Err
+    EstOutAcc(usize, bool),
+    /// the accept futures of the OUTBOUND connections of this peer resolve to Err
+    AcceptFailOut(usize),
+    /// every live connection of the peer is closed
+    CloseAll(usize),
+    /// the peer is dialled again: by id, through the handle, or by address
+    Redial(usize),
+}
+
+/// Scripted openings of the C05 stream ("accept failure" shapes): an OUTBOUND connection is reported
+/// established, the manager accepts it, and the transport then cannot start it — accept() returns
+/// Err, or the accept future resolves to Err —; later the same peer is dialled again. Alone, and
+/// with a second connection of the peer present (inbound primary while the dial is in flight;
+/// inbound secondary while the accept future of the outbound primary is pending). A roll-back that
+/// leaves the connection that never started in the peer state shows up at once (the recorded
+/// connection is not live) and as a refused re-dial of a peer without any connection.
+fn accfail_script(rng: &mut Rng) -> Vec<Intent> {
+    use Intent::*;
+    let mut v = Vec::new();
+    let p = rng.range(1, NPEERS as u64 - 1) as usize;
+    let dial = |v: &mut Vec<Intent>, rng: &mut Rng, p: usize| {
+        v.push(AddAddr(p));
+        if rng.chance(50) {
+            v.push(DialAddr(p));
+        } else {
+            v.push(DialPeer(p));
+            v.push(OpenedOne(p));
+        }
+    };
+    let fail = |v: &mut Vec<Intent>, rng: &mut Rng, p: usize| {
+        if rng.chance(50) {
+            v.push(EstOutAcc(p, true));
+        } else {
+            v.push(EstOutAcc(p, false));
+            v.push(AcceptFailOut(p));
+        }
+    };
+    let inbound = |v: &mut Vec<Intent>, p: usize| {
+        v.push(Alloc);
+        v.push(EstIn(p));
+    };
+    match rng.below(5) {
+        0 | 1 => {
+            // a single connection: fails to start, the peer is dialled again; the second attempt
+            // succeeds or fails to start as well
+            dial(&mut v, rng, p);
+            fail(&mut v, rng, p);
+            v.push(Redial(p));
+            if rng.chance(50) {
+                v.push(OpenedOne(p));
+                fail(&mut v, rng, p);
+                v.push(Redial(p));
+            }
+        }
+        2 => {
+            // the dial is in flight, an inbound connection becomes the primary one, the outbound
+            // connection is accepted as the secondary one and fails to start; the inbound one
+            // closes and the peer is dialled again
+            dial(&mut v, rng, p);
+            inbound(&mut v, p);
+            v.push(AcceptAll);
+            fail(&mut v, rng, p);
+            if rng.chance(30) {
+                v.push(Redial(p)); // refused: the inbound connection is live
+            }
+            v.push(CloseAll(p));
+            v.push(Redial(p));
+        }
+        3 => {
+            // outbound primary whose accept future is pending, inbound secondary; the future of the
+            // primary fails (the secondary is promoted), the inbound one closes, re-dial
+            dial(&mut v, rng, p);
+            v.push(EstOutAcc(p, false));
+            inbound(&mut v, p);
+            v.push(AcceptFailOut(p));
+            v.push(AcceptAll);
+            v.push(CloseAll(p));
+            v.push(Redial(p));
+        }
+        _ => {
+            // two peers, one after the other and interleaved
+            let q = if p == 1 { 2 } else { p - 1 };
+            dial(&mut v, rng, p);
+            dial(&mut v, rng, q);
+            fail(&mut v, rng, p);
+            v.push(Redial(p));
+            fail(&mut v, rng, q);
+            v.push(Redial(q));
+        }
+    }
+    v
 }
 
 fn crowd_script(rng: &mut Rng) -> Vec<Intent> {
@@ -904,6 +1000,37 @@ fn realize(i: Intent, k: &Contract, rng: &mut Rng, inst: u64) -> Vec<Ev> {
             .map(|(c, q, u)| Ev::TrEstablished(*q, *c, *u, false, false))
             .into_iter()
             .collect(),
+        Intent::DialPeer(p) => vec![if rng.chance(25) {
+            Ev::HDialPeer(p, vec![], vec![])
+        } else {
+            Ev::DialPeer(p, vec![], vec![])
+        }],
+        Intent::OpenedOne(p) => k
+            .owed_open
+            .iter()
+            .find(|(_, _, q)| *q == p)
+            .map(|(c, u, _)| Ev::TrOpened(*c, *u, false))
+            .into_iter()
+            .collect(),
+        Intent::EstOutAcc(p, f) => k
+            .owed_neg
+            .iter()
+            .find(|(_, q, _)| *q == p)
+            .map(|(c, q, u)| Ev::TrEstablished(*q, *c, *u, false, f))
+            .into_iter()
+            .collect(),
+        Intent::AcceptFailOut(p) => k
+            .owed_acc
+            .iter()
+            .filter(|(_, q, l)| *q == p && !*l)
+            .map(|(c, _, _)| Ev::AcceptDone(*c, false))
+            .collect(),
+        Intent::CloseAll(p) => k.live.iter().filter(|(_, q)| *q == p).map(|(c, q)| Ev::Closed(*q, *c)).collect(),
+        Intent::Redial(p) => vec![match rng.below(4) {
+            0 => Ev::DialAddr(p, t, false),
+            1 => Ev::HDialPeer(p, vec![], vec![]),
+            _ => Ev::DialPeer(p, vec![], vec![]),
+        }],
     }
 }
 
@@ -928,6 +1055,15 @@ fn run_generated(rt: &Runtime, rng: &mut Rng, thorough: bool, focus_limits: bool
             max_in = 4;
         }
         script = crowd_script(rng).into();
+    }
+    // a third of the C05 cases open with an accept-failure shape (limits that leave room for it);
+    // in those cases accept failures are ordinary events of the random part as well
+    let mut acc_fail = focus_limits;
+    if !focus_limits && rng.chance(33) {
+        max_in = rng.pick(&[0u64, 0, 3, 4, 2]);
+        max_out = rng.pick(&[0u64, 0, 3, 4, 2]);
+        script = accfail_script(rng).into();
+        acc_fail = true;
     }
     // both transports installed in most cases; TCP only / WebSocket only in the others
     let inst = rng.pick(&[3u64, 3, 3, 3, 3, 3, 3, 1, 1, 2]);
@@ -962,13 +1098,13 @@ fn run_generated(rt: &Runtime, rng: &mut Rng, thorough: bool, focus_limits: bool
                 phase_settle = true;
                 continue;
             }
-            let g = GenCfg { noisy, settle: false, acc_fail: focus_limits, inst, shapes_left: shapes < MAX_SHAPES };
+            let g = GenCfg { noisy, settle: false, acc_fail, inst, shapes_left: shapes < MAX_SHAPES };
             match gen_event(rng, &k, &g) {
                 Some(e) => e,
                 None => break,
             }
         } else if !(k.owed_open.is_empty() && k.owed_neg.is_empty() && k.owed_acc.is_empty()) {
-            let g = GenCfg { noisy: false, settle: true, acc_fail: focus_limits, inst, shapes_left: false };
+            let g = GenCfg { noisy: false, settle: true, acc_fail, inst, shapes_left: false };
             match gen_event(rng, &k, &g) {
                 Some(e) => e,
                 None => break,
